@@ -14,6 +14,14 @@ def replay_form(p: dict) -> int:
         from .kvk import replay_kvk
 
         return replay_kvk(p)
+    if p.get("kind") == "poison":
+        from .packing import replay_poison
+
+        return replay_poison(p)
+    if p.get("kind") == "exactq":
+        from .exactq import replay_exact
+
+        return replay_exact(p)
     if p.get("kind") == "bounds":
         from .kernelprops import replay_bounds
 
